@@ -5,7 +5,9 @@ import IoraModel.Common.Bytes
 Mirrors, function by function, the parts of `include/iora/network/transport_impl.hpp` that implement the per-session
 read mode and the synchronous receive buffer:
 
-* `Transport::Impl::setupEngineCallbacks` — the `onData` handler and step 6 of the `onClose` handler (I/O thread),
+* `Transport::Impl::setupEngineCallbacks` — the `onData` handler and the `onClose` handler (I/O thread): its `syncMutex` section that
+  marks the session closed (`ioClose`; REPAIRED order, fixes/FC03c-…: it runs BEFORE the close callbacks) and the invocation of the
+  global close callback / observers (`ioCloseCb`, emitting `Ev.closeCb`),
 * `Transport::receiveSync`, `Transport::setReadMode` (incl. the ordered flush loop), `Impl::setTeardownFence`.
 
 Granularity: **one step = one `syncMutex` critical section** (or one user-callback invocation made outside the lock), which
@@ -40,6 +42,7 @@ structure Buf where
   hasData : Bool := false
   closed : Bool := false
   overflow : Bool := false
+  reported : Bool := false      -- `overflowReported`: a receive has answered BufferOverflow for this buffer (FC03d: GC gate)
   deriving Repr
 
 /-- program counter of a `setReadMode(sid, Async)` call that took the flush path -/
@@ -73,6 +76,7 @@ structure Sess where
   lateAsync : Bool := false          -- a chunk took the Async callback path after a gap (mode switched to Async after an overflow)
   dead : Bool := false               -- the engine has reported the close
   eof : Bool := false                -- a receive has returned PeerClosed
+  ovfSeen : Bool := false            -- ghost: a receive has returned BufferOverflow
   deriving Repr
 
 structure Cfg where
@@ -90,11 +94,14 @@ structure State where
   shuttingDown : Bool := false
   ioPend : Option (Nat × Bytes) := none   -- the I/O thread read "Async" under the lock and has not yet invoked the callback
   gcRan : Bool := false               -- ghost: a tombstone GC pass has run
+  closePend : Option Nat := none      -- the I/O thread has marked this session closed (close handler step 2) and has not yet invoked the close callbacks
+  closeGrace : Bool := false          -- ghost: a setReadMode(…, Async) flush of that session was in progress when its close was processed
 
 inductive Step
   | ioData (sid : Nat) (chunk : Bytes)
   | ioDeliver
   | ioClose (sid : Nat)
+  | ioCloseCb (sid : Nat)
   | recvEnter (sid len : Nat)
   | recvWake (sid : Nat) (timedOut : Bool)
   | setMode (sid : Nat) (m : Mode)
@@ -106,6 +113,7 @@ inductive Ev
   | recvRet (sid : Nat) (r : RecvRes)
   | cbData (sid : Nat) (d : Bytes)
   | modeRet (sid : Nat) (ok : Bool)
+  | closeCb (sid : Nat)             -- the global close callback (and then the session's observers) is invoked for `sid`
   deriving Repr, DecidableEq
 
 /-! ## derived fields -/
@@ -144,7 +152,7 @@ def drain (x : Sess) (b : Buf) (len : Nat) : Sess × RecvRes :=
     let rest := b.data.drop n
     ({ x with buf := some { b with data := rest, hasData := !rest.isEmpty }, out := x.out ++ b.data.take n, parked := none },
      .ok (b.data.take n))
-  else if b.overflow then ({ x with parked := none }, .overflow)
+  else if b.overflow then ({ x with buf := some { b with reported := true }, parked := none, ovfSeen := true }, .overflow)
   else if b.closed then ({ x with buf := none, mode := none, parked := none, eof := true }, .peerClosed)
   else ({ x with parked := none }, .shuttingDown)
 
@@ -193,7 +201,8 @@ def ioDataS (cfg : Cfg) (sh : Bool) (x : Sess) (chunk : Bytes) : Sess × DataAct
   | .disabled => (x, .ignored)
   | .async => ({ x with arrived := x.arrived ++ chunk, accepted := x.accepted ++ chunk, lateAsync := x.lateAsync || x.gap }, .toCallback)
 
-/-- mirrors transport_impl.hpp::Transport::Impl::setupEngineCallbacks — `onClose` handler step 6, the session's own entry -/
+/-- mirrors transport_impl.hpp::Transport::Impl::setupEngineCallbacks — `onClose` handler step 2 (the former step 6, moved above the
+callbacks by FC03c), the session's own entry -/
 def ioCloseS (cfg : Cfg) (x : Sess) : Sess :=
   let x1 : Sess := match x.buf with
     | some b => wake { x with buf := some { b with closed := true } } cfg.notifyOnClose
@@ -203,7 +212,7 @@ def ioCloseS (cfg : Cfg) (x : Sess) : Sess :=
 /-- GC gate of `onClose` step 6 -/
 def reclaimable (y : Sess) : Bool :=
   match y.buf with
-  | some b => b.closed && !b.hasData && waiters y == 0 && !flushing y
+  | some b => b.closed && !b.hasData && waiters y == 0 && !flushing y && (!b.overflow || b.reported)
   | none => false
 
 def bufCount (sess : Nat → Sess) (dom : List Nat) : Nat := (dom.filter (fun j => (sess j).buf.isSome)).length
@@ -288,7 +297,12 @@ def step (cfg : Cfg) (s : State) : Step → State × List Ev
     match s.ioPend with
     | some _ => (s, [])
     | none =>
-      ({ s with sess := (closeSess cfg s sid).2, dom := touch s.dom sid, gcRan := s.gcRan || (closeSess cfg s sid).1 }, [])
+      ({ s with sess := (closeSess cfg s sid).2, dom := touch s.dom sid, gcRan := s.gcRan || (closeSess cfg s sid).1,
+                closePend := some sid, closeGrace := (s.sess sid).flush.isSome }, [])
+  | .ioCloseCb sid =>
+    -- mirrors transport_impl.hpp::Transport::Impl::setupEngineCallbacks — `onClose` handler steps 3-6 (REPAIRED order, FC03c): the
+    -- global close callback and the observers run AFTER the session was marked closed (`ioClose`), with no Transport mutex held
+    if s.closePend = some sid then ({ s with closePend := none }, [.closeCb sid]) else (s, [])
   | .recvEnter sid len =>
     let r := recvEnterS s.shuttingDown (s.sess sid) len
     ({ s with sess := upd s.sess sid r.1, dom := touch s.dom sid }, evRecv sid r.2)
